@@ -7,5 +7,7 @@ INVARIANT TagParserAcceptsOwnType
 INVARIANT EmptyOnlyExtensions
 INVARIANT LengthBeyondBlock
 INVARIANT ListWholeBlock
+INVARIANT InnerLieIgnoresWhatFollows
+INVARIANT LongLists
 INVARIANT EmitCase
 CHECK_DEADLOCK FALSE
